@@ -4,20 +4,39 @@ package c17
 // the REAL configuration code assembles them
 // (configuration.NewBlobAccessFromConfiguration: which back end is slow /
 // fast / primary / secondary, which one is the replicator's source and
-// which its sink, which key format an existence cache is given). The
-// leaves are real in-memory `local` CAS back ends declared under
-// with_labels; a demultiplexer makes the composite reachable under the
+// which its sink, which key format an existence cache - the
+// existence_caching decorator's or the queued replicator's - is given).
+// The leaves are real in-memory `local` CAS back ends declared under
+// with_labels, each either flat (instance names ignored) or hierarchical
+// (an object is visible under the instance names it was stored under and
+// their children); a demultiplexer makes the composite reachable under the
 // instance name prefix "c" and the two leaves directly under "x" and "y",
 // so placements can be made and inspected through the same configured
 // stack.
+//
+// Back-end failures come from the configuration too: a back end of the
+// composite may be a demultiplexer that sends one instance name ("fx" for
+// the slow / secondary one, "fy" for the fast / primary one) to an `error`
+// back end, and one leaf may have blocks too small for the one big object
+// of the case (its Put of that object fails), so that replications fail
+// and later ones must still work.
+//
+// The whole case runs inside a testing/synctest bubble: every operation on
+// the composite gets a deadline on the bubble's virtual clock, which only
+// advances when every goroutine is blocked. A blocked operation (e.g. a
+// replication slot that a failed replication never gave back) therefore
+// returns at once with an expired context and is reported; wall-clock time
+// influences nothing.
 
 import (
 	"context"
 	"fmt"
 	"strings"
 	"testing"
+	"testing/synctest"
 	"time"
 
+	remoteexecution "github.com/bazelbuild/remote-apis/build/bazel/remote/execution/v2"
 	"github.com/buildbarn/bb-storage/pkg/blobstore"
 	"github.com/buildbarn/bb-storage/pkg/blobstore/buffer"
 	"github.com/buildbarn/bb-storage/pkg/blobstore/configuration"
@@ -26,6 +45,9 @@ import (
 	pb "github.com/buildbarn/bb-storage/pkg/proto/configuration/blobstore"
 	digestpb "github.com/buildbarn/bb-storage/pkg/proto/configuration/digest"
 	evictionpb "github.com/buildbarn/bb-storage/pkg/proto/configuration/eviction"
+	"google.golang.org/grpc/codes"
+	"google.golang.org/grpc/status"
+	"google.golang.org/protobuf/proto"
 	"google.golang.org/protobuf/types/known/durationpb"
 	"google.golang.org/protobuf/types/known/emptypb"
 	"pgregory.net/rapid"
@@ -36,7 +58,33 @@ import (
 
 var recConfigured = vstats.New("TestC17Configured")
 
-func cfgLocalLeaf(hierarchical bool) *pb.BlobAccessConfiguration {
+// cfgOpDeadline is the (virtual) deadline of one operation on the composite.
+const cfgOpDeadline = time.Hour
+
+// Block sizes of the leaves. Per case far less than one block is written
+// to a leaf, so no block ever rotates: leaves never evict and never need
+// to refresh.
+const (
+	cfgBlockNormal = 16384
+	cfgBlockSmall  = 4096  // the leaf that cannot store the big object
+	cfgBlockLarge  = 65536 // the other leaf of such a case
+	cfgBigObject   = 5000
+)
+
+type cfgLeaf struct {
+	hierarchical bool
+	blockSize    int64
+}
+
+func (l cfgLeaf) String() string {
+	k := "flat"
+	if l.hierarchical {
+		k = "hierarchical"
+	}
+	return fmt.Sprintf("%s/%d", k, l.blockSize)
+}
+
+func cfgLocalLeaf(l cfgLeaf) *pb.BlobAccessConfiguration {
 	return &pb.BlobAccessConfiguration{Backend: &pb.BlobAccessConfiguration_Local{Local: &pb.LocalBlobAccessConfiguration{
 		KeyLocationMapBackend:            &pb.LocalBlobAccessConfiguration_KeyLocationMapInMemory_{KeyLocationMapInMemory: &pb.LocalBlobAccessConfiguration_KeyLocationMapInMemory{Entries: 1021}},
 		KeyLocationMapMaximumGetAttempts: 16,
@@ -44,8 +92,8 @@ func cfgLocalLeaf(hierarchical bool) *pb.BlobAccessConfiguration {
 		OldBlocks:                        2,
 		CurrentBlocks:                    2,
 		NewBlocks:                        2,
-		BlocksBackend:                    &pb.LocalBlobAccessConfiguration_BlocksInMemory_{BlocksInMemory: &pb.LocalBlobAccessConfiguration_BlocksInMemory{BlockSizeBytes: 16384}},
-		HierarchicalInstanceNames:        hierarchical,
+		BlocksBackend:                    &pb.LocalBlobAccessConfiguration_BlocksInMemory_{BlocksInMemory: &pb.LocalBlobAccessConfiguration_BlocksInMemory{BlockSizeBytes: l.blockSize}},
+		HierarchicalInstanceNames:        l.hierarchical,
 	}}}
 }
 
@@ -56,23 +104,68 @@ func cfgLabelRef(l string) *pb.BlobAccessConfiguration {
 func cfgExistenceCache(size int64) *digestpb.ExistenceCacheConfiguration {
 	return &digestpb.ExistenceCacheConfiguration{
 		CacheSize:              size,
-		CacheDuration:          durationpb.New(time.Hour),
+		CacheDuration:          durationpb.New(24 * time.Hour),
 		CacheReplacementPolicy: evictionpb.CacheReplacementPolicy_LEAST_RECENTLY_USED,
 	}
 }
 
+const cfgFailingText = "injected: the storage behind this instance name is down"
+
+// cfgBackEnd is one back end of the composite: the leaf itself, or
+// (failCode != OK) a demultiplexer that sends instance name failInst to an
+// `error` back end and everything else to the leaf.
+func cfgBackEnd(leafLabel, failInst string, failCode codes.Code) *pb.BlobAccessConfiguration {
+	if failCode == codes.OK {
+		return cfgLabelRef(leafLabel)
+	}
+	return &pb.BlobAccessConfiguration{Backend: &pb.BlobAccessConfiguration_Demultiplexing{Demultiplexing: &pb.DemultiplexingBlobAccessConfiguration{InstanceNamePrefixes: map[string]*pb.DemultiplexedBlobAccessConfiguration{
+		"":       {Backend: cfgLabelRef(leafLabel)},
+		failInst: {Backend: &pb.BlobAccessConfiguration{Backend: &pb.BlobAccessConfiguration_Error{Error: status.New(failCode, cfgFailingText).Proto()}}},
+	}}}}
+}
+
+// cfgWrap is one decorator of a replicator configuration.
+type cfgWrap struct {
+	kind      string
+	n         int64 // concurrency_limiting: maximum_concurrency
+	cacheSize int64 // queued: existence cache size
+}
+
+func (w cfgWrap) String() string {
+	switch w.kind {
+	case "concurrency_limiting":
+		return fmt.Sprintf("concurrency_limiting[%d]", w.n)
+	case "queued":
+		return fmt.Sprintf("queued[%d]", w.cacheSize)
+	}
+	return w.kind
+}
+
 // cfgRepl is a replicator configuration: wrappers around `local` or `noop`.
 type cfgRepl struct {
-	wrappers []string
+	wrappers []cfgWrap
 	noop     bool
 }
 
 func (r cfgRepl) String() string {
+	parts := []string{}
+	for _, w := range r.wrappers {
+		parts = append(parts, w.String())
+	}
 	base := "local"
 	if r.noop {
 		base = "noop"
 	}
-	return strings.Join(append(append([]string{}, r.wrappers...), base), ">")
+	return strings.Join(append(parts, base), ">")
+}
+
+func (r cfgRepl) has(kind string) bool {
+	for _, w := range r.wrappers {
+		if w.kind == kind {
+			return true
+		}
+	}
+	return false
 }
 
 func (r cfgRepl) config() *pb.BlobReplicatorConfiguration {
@@ -83,13 +176,14 @@ func (r cfgRepl) config() *pb.BlobReplicatorConfiguration {
 		out = &pb.BlobReplicatorConfiguration{Mode: &pb.BlobReplicatorConfiguration_Local{Local: &emptypb.Empty{}}}
 	}
 	for i := len(r.wrappers) - 1; i >= 0; i-- {
-		switch r.wrappers[i] {
+		w := r.wrappers[i]
+		switch w.kind {
 		case "deduplicating":
 			out = &pb.BlobReplicatorConfiguration{Mode: &pb.BlobReplicatorConfiguration_Deduplicating{Deduplicating: out}}
 		case "concurrency_limiting":
-			out = &pb.BlobReplicatorConfiguration{Mode: &pb.BlobReplicatorConfiguration_ConcurrencyLimiting{ConcurrencyLimiting: &pb.ConcurrencyLimitingBlobReplicatorConfiguration{Base: out, MaximumConcurrency: 2}}}
+			out = &pb.BlobReplicatorConfiguration{Mode: &pb.BlobReplicatorConfiguration_ConcurrencyLimiting{ConcurrencyLimiting: &pb.ConcurrencyLimitingBlobReplicatorConfiguration{Base: out, MaximumConcurrency: w.n}}}
 		case "queued":
-			out = &pb.BlobReplicatorConfiguration{Mode: &pb.BlobReplicatorConfiguration_Queued{Queued: &pb.QueuedBlobReplicatorConfiguration{Base: out, ExistenceCache: cfgExistenceCache(16)}}}
+			out = &pb.BlobReplicatorConfiguration{Mode: &pb.BlobReplicatorConfiguration_Queued{Queued: &pb.QueuedBlobReplicatorConfiguration{Base: out, ExistenceCache: cfgExistenceCache(w.cacheSize)}}}
 		}
 	}
 	return out
@@ -97,38 +191,149 @@ func (r cfgRepl) config() *pb.BlobReplicatorConfiguration {
 
 func genCfgRepl(t *rapid.T) cfgRepl {
 	var r cfgRepl
-	if rapid.IntRange(0, 4).Draw(t, "noop") == 0 {
+	if rapid.IntRange(0, 5).Draw(t, "noop") == 0 {
 		r.noop = true
 		return r
 	}
-	n := rapid.IntRange(0, 2).Draw(t, "depth")
+	n := rapid.IntRange(0, 3).Draw(t, "depth")
 	for i := 0; i < n; i++ {
-		r.wrappers = append(r.wrappers, rapid.SampledFrom([]string{"deduplicating", "concurrency_limiting", "queued"}).Draw(t, "wrapper"))
+		w := cfgWrap{kind: rapid.SampledFrom([]string{"deduplicating", "concurrency_limiting", "queued", "queued"}).Draw(t, "wrapper")}
+		switch w.kind {
+		case "concurrency_limiting":
+			w.n = int64(rapid.IntRange(1, 2).Draw(t, "maximum_concurrency"))
+		case "queued":
+			w.cacheSize = int64(rapid.SampledFrom([]int{1, 2, 3, 16}).Draw(t, "cache_size"))
+		}
+		r.wrappers = append(r.wrappers, w)
 	}
 	return r
 }
 
-func TestC17Configured(t *testing.T) {
-	rapid.Check(t, func(t *rapid.T) {
+// cfgObject is one blob of a configured case.
+type cfgObject struct {
+	data []byte
+	msg  proto.Message // != nil: data is the serialization of msg
+	big  bool
+}
+
+func genCfgObject(t *rapid.T, o int, big bool) cfgObject {
+	asProto := rapid.Bool().Draw(t, fmt.Sprintf("obj%d/proto", o))
+	switch {
+	case big && asProto:
+		m := &remoteexecution.Directory{Files: []*remoteexecution.FileNode{{Name: fmt.Sprintf("big %d ", o) + strings.Repeat("n", cfgBigObject)}}}
+		data, err := proto.MarshalOptions{Deterministic: true}.Marshal(m)
+		if err != nil {
+			panic(err)
+		}
+		return cfgObject{data: data, msg: m, big: true}
+	case big:
+		return cfgObject{data: []byte(fmt.Sprintf("big cached object %d ", o) + strings.Repeat("b", cfgBigObject)), big: true}
+	case asProto:
+		m, data := protoObject(o, 5+o)
+		return cfgObject{data: data, msg: m}
+	}
+	return cfgObject{data: []byte(fmt.Sprintf("cached object %d", o))}
+}
+
+// cfgRead is how the result of a read is consumed.
+type cfgRead struct {
+	method  int
+	chunk   int
+	off, ln int // partial ReadAt
+}
+
+func genCfgRead(t *rapid.T, obj cfgObject) cfgRead {
+	r := cfgRead{method: rapid.SampledFrom(methodChoices).Draw(t, "method"), chunk: rapid.IntRange(1, 9).Draw(t, "readchunk")}
+	if r.method == methodToProto && obj.msg == nil {
+		r.method = 0
+	}
+	if r.method == methodReadAtPartial {
+		r.off = rapid.IntRange(0, len(obj.data)).Draw(t, "readat_off")
+		r.ln = rapid.IntRange(0, len(obj.data)-r.off+2).Draw(t, "readat_len")
+	}
+	return r
+}
+
+// cfgRef is one (object, instance name) pair.
+type cfgRef struct {
+	o    int
+	inst string
+}
+
+func (r cfgRef) String() string { return fmt.Sprintf("o%d@%q", r.o, r.inst) }
+
+type cfgOp struct {
+	kind string // get, put, find, place
+	refs []cfgRef
+	read cfgRead
+	leaf int // place: the leaf the blob is put into directly
+}
+
+func (o cfgOp) String() string {
+	parts := []string{}
+	for _, r := range o.refs {
+		parts = append(parts, r.String())
+	}
+	s := o.kind + "(" + strings.Join(parts, " ") + ")"
+	if o.kind == "get" {
+		s += "/" + methodNames[o.read.method]
+	}
+	if o.kind == "place" {
+		s += fmt.Sprintf("->leaf%d", o.leaf)
+	}
+	return s
+}
+
+func TestC17Configured(outer *testing.T) {
+	rapid.Check(outer, func(t *rapid.T) {
 		c := recConfigured.Begin()
-		kind := rapid.SampledFrom([]string{"read_caching", "read_fallback", "existence_caching"}).Draw(t, "composite")
+		kind := rapid.SampledFrom([]string{"read_caching", "read_caching", "read_fallback", "read_fallback", "existence_caching"}).Draw(t, "composite")
 		repl := genCfgRepl(t)
 		cacheSize := int64(rapid.IntRange(1, 8).Draw(t, "cacheSize"))
 		c.Add(kind, repl.String(), int(cacheSize))
+		existence := kind == "existence_caching"
 
-		// Leaf X is the slow / secondary back end (the replicator's
-		// source), leaf Y the fast / primary one (its sink); for
-		// existence_caching only X exists and it is hierarchical (its keys
-		// include the instance name).
+		// Leaf X (index 0) is the slow / secondary back end (the
+		// replicator's source), leaf Y (index 1) the fast / primary one
+		// (its sink); for existence_caching only X exists and it is
+		// hierarchical (its keys include the instance name).
+		names := [2]string{"slow", "fast"}
+		if kind == "read_fallback" {
+			names = [2]string{"secondary", "primary"}
+		}
+		var leaves [2]cfgLeaf
+		for x := range leaves {
+			leaves[x] = cfgLeaf{hierarchical: rapid.IntRange(0, 2).Draw(t, fmt.Sprintf("leaf%d/hierarchical", x)) != 0, blockSize: cfgBlockNormal}
+		}
+		// small: the leaf whose blocks cannot hold the big object (-1: no
+		// big object in this case).
+		small := rapid.SampledFrom([]int{-1, -1, -1, 0, 1, 1}).Draw(t, "small_leaf")
+		failInst := [2]string{"fx", "fy"}
+		var failCode [2]codes.Code
+		for x := range failCode {
+			failCode[x] = rapid.SampledFrom([]codes.Code{codes.OK, codes.OK, codes.Unavailable, codes.Internal, codes.PermissionDenied, codes.ResourceExhausted}).Draw(t, fmt.Sprintf("backend%d/failure", x))
+		}
+		if existence {
+			leaves[0].hierarchical = true
+			small = -1
+			failCode = [2]codes.Code{}
+		}
+		if small >= 0 {
+			leaves[small].blockSize = cfgBlockSmall
+			leaves[1-small].blockSize = cfgBlockLarge
+		}
+		c.Add(leaves[0].String(), leaves[1].String(), small, int(failCode[0]), int(failCode[1]))
+
 		var composite *pb.BlobAccessConfiguration
-		labels := map[string]*pb.BlobAccessConfiguration{"leafX": cfgLocalLeaf(kind == "existence_caching"), "leafY": cfgLocalLeaf(false)}
+		labels := map[string]*pb.BlobAccessConfiguration{"leafX": cfgLocalLeaf(leaves[0]), "leafY": cfgLocalLeaf(leaves[1])}
+		backX, backY := cfgBackEnd("leafX", failInst[0], failCode[0]), cfgBackEnd("leafY", failInst[1], failCode[1])
 		switch kind {
 		case "read_caching":
 			composite = &pb.BlobAccessConfiguration{Backend: &pb.BlobAccessConfiguration_ReadCaching{ReadCaching: &pb.ReadCachingBlobAccessConfiguration{
-				Slow: cfgLabelRef("leafX"), Fast: cfgLabelRef("leafY"), Replicator: repl.config()}}}
+				Slow: backX, Fast: backY, Replicator: repl.config()}}}
 		case "read_fallback":
 			composite = &pb.BlobAccessConfiguration{Backend: &pb.BlobAccessConfiguration_ReadFallback{ReadFallback: &pb.ReadFallbackBlobAccessConfiguration{
-				Secondary: cfgLabelRef("leafX"), Primary: cfgLabelRef("leafY"), Replicator: repl.config()}}}
+				Secondary: backX, Primary: backY, Replicator: repl.config()}}}
 		default:
 			composite = &pb.BlobAccessConfiguration{Backend: &pb.BlobAccessConfiguration_ExistenceCaching{ExistenceCaching: &pb.ExistenceCachingBlobAccessConfiguration{
 				Backend: cfgLabelRef("leafX"), ExistenceCache: cfgExistenceCache(cacheSize)}}}
@@ -142,275 +347,530 @@ func TestC17Configured(t *testing.T) {
 			}}}},
 		}}}
 
-		nobj := rapid.IntRange(1, 5).Draw(t, "nobjects")
-		payload := func(o int) []byte { return []byte(fmt.Sprintf("cached object %d", o)) }
-		insts := []string{"", "p", "p/q", "r"}
+		nobj := rapid.IntRange(1, 4).Draw(t, "nobjects")
+		objs := make([]cfgObject, nobj)
+		for o := range objs {
+			if existence {
+				objs[o] = cfgObject{data: []byte(fmt.Sprintf("cached object %d", o))}
+			} else {
+				objs[o] = genCfgObject(t, o, small >= 0 && o == 0)
+			}
+			c.Add(objs[o].data)
+		}
+		// Instance names: prefix-related ones ("", p, p/q), an unrelated
+		// one (r) and the two that a back end may fail for.
+		insts := []string{"", "p", "p/q", "r", "r"}
+		if !existence {
+			insts = append(insts, "fx", "fy")
+		}
+		allInsts := []string{"", "p", "p/q", "r", "fx", "fy"}
+		genRef := func() cfgRef {
+			return cfgRef{o: rapid.IntRange(0, nobj-1).Draw(t, "obj"), inst: rapid.SampledFrom(insts).Draw(t, "instance")}
+		}
 		type seed struct {
-			o    int
-			leaf string
-			inst string
+			ref  cfgRef
+			leaf int
 		}
 		var seeds []seed
 		for i, n := 0, rapid.IntRange(0, 6).Draw(t, "nseeds"); i < n; i++ {
-			s := seed{o: rapid.IntRange(0, nobj-1).Draw(t, "seedobj"), leaf: rapid.SampledFrom([]string{"x", "y"}).Draw(t, "seedleaf"), inst: rapid.SampledFrom(insts).Draw(t, "seedinst")}
-			if kind == "existence_caching" {
-				s.leaf = "x"
+			s := seed{ref: genRef(), leaf: rapid.SampledFrom([]int{0, 0, 1}).Draw(t, "seedleaf")}
+			if existence {
+				s.leaf = 0
+			}
+			if objs[s.ref.o].big && s.leaf == small {
+				s.leaf = 1 - small
 			}
 			seeds = append(seeds, s)
-			c.Add(s.o, s.leaf, s.inst)
-		}
-		type op struct {
-			kind string
-			objs []int
-			inst []string
+			c.Add(s.ref.o, s.leaf, s.ref.inst)
 		}
 		nops := rapid.IntRange(1, 10).Draw(t, "nops")
-		ops := make([]op, nops)
+		ops := make([]cfgOp, nops)
 		for i := range ops {
-			o := op{kind: rapid.SampledFrom([]string{"get", "get", "put", "find", "find"}).Draw(t, "op")}
+			o := cfgOp{kind: rapid.SampledFrom([]string{"get", "get", "get", "get", "put", "find", "find", "place"}).Draw(t, "op")}
+			if existence && o.kind == "place" {
+				o.kind = "put"
+			}
 			k := 1
 			if o.kind == "find" {
 				k = rapid.IntRange(1, 5).Draw(t, "k")
 			}
 			for x := 0; x < k; x++ {
-				o.objs = append(o.objs, rapid.IntRange(0, nobj-1).Draw(t, "obj"))
-				o.inst = append(o.inst, rapid.SampledFrom(insts).Draw(t, "instance"))
+				o.refs = append(o.refs, genRef())
+			}
+			if o.kind == "get" && !existence {
+				o.read = genCfgRead(t, objs[o.refs[0].o])
+			}
+			if o.kind == "place" {
+				// the object appears in a back end behind the composite's
+				// back (the source, mostly)
+				o.leaf = rapid.SampledFrom([]int{0, 0, 1}).Draw(t, "leaf")
+				if objs[o.refs[0].o].big && o.leaf == small {
+					o.leaf = 1 - small
+				}
 			}
 			ops[i] = o
-			c.Add(o.kind, o.objs, strings.Join(o.inst, ","))
+			c.Add(o.String(), fmt.Sprint(o.read))
 		}
 
-		var readThrough, readThroughCopied, findBothSides, cachePresent, cacheOtherInstanceAbsent, absentReads, hiddenAsMissing int
-		ctx := context.Background()
-		err := program.RunLocal(ctx, func(ctx context.Context, siblings, deps program.Group) error {
-			info, err := configuration.NewBlobAccessFromConfiguration(deps, cfg, configuration.NewCASBlobAccessCreator(nil, 1<<20, nil))
-			if err != nil {
-				return fmt.Errorf("harness/C17: NewBlobAccessFromConfiguration failed: %v", err)
+		desc := fmt.Sprintf("%s, replicator %s; %s %s, %s %s", kind, repl, names[0], leaves[0], names[1], leaves[1])
+		if existence {
+			desc = fmt.Sprintf("%s, cache size %d", kind, cacheSize)
+		}
+		for x := range failCode {
+			if failCode[x] != codes.OK {
+				desc += fmt.Sprintf("; the %s back end fails with %s for instance name %q", names[x], failCode[x], failInst[x])
 			}
-			var ba blobstore.BlobAccess = info.BlobAccess
-			dig := func(prefix, inst string, o int) digest.Digest {
-				n := prefix
-				if inst != "" {
-					n += "/" + inst
-				}
-				return hx.Sha(n, payload(o))
-			}
-			// holds: does the leaf hold o under inst, asked directly.
-			holds := func(leaf, inst string, o int) (bool, error) {
-				missing, err := ba.FindMissing(ctx, dig(leaf, inst, o).ToSingletonSet())
+		}
+		// fails: back end x cannot answer for that instance name.
+		fails := func(x int, inst string) bool { return failCode[x] != codes.OK && inst == failInst[x] }
+		// fits: leaf x can store the object.
+		fits := func(x, o int) bool { return !(objs[o].big && x == small) }
+		copying := !repl.noop
+
+		var (
+			readThrough, readThroughCopied, findBothSides, cachePresent, cacheOtherInstanceAbsent, absentReads, hiddenAsMissing int
+			failedOps, opsAfterFailure, copyAfterFailure, readFailingBackEnd, copyTooBig, putCannotStore, findFailing           int
+			copiedAlreadyThereUnrelated, copiedAlreadyTherePrefix                                                               int
+			placedLater                                                                                                         int
+			methodsUsed                                                                                                         = map[string]bool{}
+		)
+		var verdict error
+		synctest.Test(outer, func(st *testing.T) {
+			verdict = program.RunLocal(context.Background(), func(ctx context.Context, siblings, deps program.Group) error {
+				info, err := configuration.NewBlobAccessFromConfiguration(deps, cfg, configuration.NewCASBlobAccessCreator(nil, 1<<20, nil))
 				if err != nil {
-					return false, fmt.Errorf("harness/C17: direct FindMissing on leaf %s failed: %v", leaf, err)
+					return fmt.Errorf("harness/C17: NewBlobAccessFromConfiguration failed: %v", err)
 				}
-				return missing.Empty(), nil
-			}
-			for _, s := range seeds {
-				d := dig(s.leaf, s.inst, s.o)
-				if err := ba.Put(ctx, d, buffer.NewCASBufferFromByteSlice(d, payload(s.o), buffer.UserProvided)); err != nil {
-					return fmt.Errorf("harness/C17: direct Put into leaf %s failed: %v", s.leaf, err)
+				var ba blobstore.BlobAccess = info.BlobAccess
+				dig := func(prefix string, r cfgRef) digest.Digest {
+					n := prefix
+					if r.inst != "" {
+						n += "/" + r.inst
+					}
+					return hx.Sha(n, objs[r.o].data)
 				}
-			}
-			desc := fmt.Sprintf("%s, replicator %s", kind, repl)
-			// Names of the roles in messages.
-			xName, yName := "slow", "fast"
-			if kind == "read_fallback" {
-				xName, yName = "secondary", "primary"
-			}
-			for _, o := range ops {
-				if kind == "existence_caching" {
-					switch o.kind {
-					case "put":
-						d := dig("c", o.inst[0], o.objs[0])
-						if err := ba.Put(ctx, d, buffer.NewCASBufferFromByteSlice(d, payload(o.objs[0]), buffer.UserProvided)); err != nil {
-							return fmt.Errorf("C17 (configured, %s): Put failed: %v", desc, err)
+				leafPrefix := [2]string{"x", "y"}
+				// stored: does leaf x hold the object visibly under that
+				// instance name, asked directly.
+				stored := func(x int, r cfgRef) (bool, error) {
+					missing, err := ba.FindMissing(ctx, dig(leafPrefix[x], r).ToSingletonSet())
+					if err != nil {
+						return false, fmt.Errorf("harness/C17: direct FindMissing on leaf %s failed: %v", leafPrefix[x], err)
+					}
+					return missing.Empty(), nil
+				}
+				// holds: as seen through the composite's back end x (a back
+				// end that fails for the instance name holds nothing there).
+				holds := func(x int, r cfgRef) (bool, error) {
+					s, err := stored(x, r)
+					return s && !fails(x, r.inst), err
+				}
+				heldAnywhere := func(o int) (bool, error) {
+					for x := range leafPrefix {
+						for _, inst := range allInsts {
+							s, err := stored(x, cfgRef{o, inst})
+							if err != nil || s {
+								return s, err
+							}
 						}
-					case "get":
-						h, err := holds("x", o.inst[0], o.objs[0])
+					}
+					return false, nil
+				}
+				// everything ever seen on a leaf must stay there (leaves
+				// never evict in this test).
+				type seenKey struct {
+					x   int
+					ref cfgRef
+				}
+				seen := map[seenKey]bool{}
+				note := func(r cfgRef) error {
+					for x := range leafPrefix {
+						s, err := stored(x, r)
 						if err != nil {
 							return err
 						}
-						_, gerr := ba.Get(ctx, dig("c", o.inst[0], o.objs[0])).ToByteSlice(1 << 16)
-						// Reads are not part of the existence cache clause:
-						// counted only.
-						if (gerr == nil) != h {
-							recConfigured.Count("existence_caching_get_differs_from_back_end", 1)
+						if s {
+							seen[seenKey{x, r}] = true
 						}
-					case "find":
-						sb := digest.NewSetBuilder(0)
-						for x, ob := range o.objs {
-							sb.Add(dig("c", o.inst[x], ob))
-						}
-						missing, err := ba.FindMissing(ctx, sb.Build())
+					}
+					return nil
+				}
+				checkNothingLost := func(after string) error {
+					for k := range seen {
+						s, err := stored(k.x, k.ref)
 						if err != nil {
-							return fmt.Errorf("C17 (configured, %s): FindMissing failed: %v", desc, err)
+							return err
 						}
-						got := map[string]bool{}
-						for _, d := range missing.Items() {
-							got[d.GetKey(digest.KeyWithInstance)] = true
+						if !s {
+							return fmt.Errorf("C17 (configured, %s): after %s the %s back end no longer holds %s, which it held before (nothing is ever evicted in this test)", desc, after, names[k.x], k.ref)
 						}
-						for x, ob := range o.objs {
-							h, err := holds("x", o.inst[x], ob)
+					}
+					return nil
+				}
+				for _, s := range seeds {
+					d := dig(leafPrefix[s.leaf], s.ref)
+					if err := ba.Put(ctx, d, buffer.NewCASBufferFromByteSlice(d, objs[s.ref.o].data, buffer.UserProvided)); err != nil {
+						return fmt.Errorf("harness/C17: direct Put into leaf %s failed: %v", leafPrefix[s.leaf], err)
+					}
+					if err := note(s.ref); err != nil {
+						return err
+					}
+				}
+				// run: one operation on the composite under the virtual
+				// deadline. Returns blocked = the deadline expired.
+				run := func(f func(ctx context.Context)) (blocked bool) {
+					opCtx, cancel := context.WithTimeout(ctx, cfgOpDeadline)
+					defer cancel()
+					f(opCtx)
+					return opCtx.Err() != nil
+				}
+				blockedErr := func(what string, err error) error {
+					return fmt.Errorf("C17 (configured, %s): %s did not complete although both back ends answer every call at once: it stayed blocked until its deadline on the virtual clock expired, i.e. until every goroutine was blocked (then: %v). No copy is running, so every replication slot has to be free (%d operation(s) failed earlier in this case: a failed replication has to give its slot back)", desc, what, err, failedOps)
+				}
+
+				for _, o := range ops {
+					if failedOps > 0 {
+						opsAfterFailure++
+					}
+					if existence {
+						switch o.kind {
+						case "put":
+							d := dig("c", o.refs[0])
+							if err := ba.Put(ctx, d, buffer.NewCASBufferFromByteSlice(d, objs[o.refs[0].o].data, buffer.UserProvided)); err != nil {
+								return fmt.Errorf("C17 (configured, %s): Put failed: %v", desc, err)
+							}
+						case "get":
+							h, err := stored(0, o.refs[0])
 							if err != nil {
 								return err
 							}
-							reportedPresent := !got[dig("c", o.inst[x], ob).GetKey(digest.KeyWithInstance)]
-							if reportedPresent && !h {
-								return fmt.Errorf("C17 (configured, %s, cache size %d): an existence cache never reports an object present unless the back end reported it present, but object %d is reported present under %q, where the back end has never held it (objects never disappear in this test)", desc, cacheSize, ob, o.inst[x])
+							_, gerr := ba.Get(ctx, dig("c", o.refs[0])).ToByteSlice(1 << 16)
+							// Reads are not part of the existence cache clause:
+							// counted only.
+							if (gerr == nil) != h {
+								recConfigured.Count("existence_caching_get_differs_from_back_end", 1)
 							}
-							if reportedPresent {
-								cachePresent++
-							} else {
-								if h {
-									hiddenAsMissing++
+						case "find":
+							sb := digest.NewSetBuilder(0)
+							for _, r := range o.refs {
+								sb.Add(dig("c", r))
+							}
+							missing, err := ba.FindMissing(ctx, sb.Build())
+							if err != nil {
+								return fmt.Errorf("C17 (configured, %s): FindMissing failed: %v", desc, err)
+							}
+							got := map[string]bool{}
+							for _, d := range missing.Items() {
+								got[d.GetKey(digest.KeyWithInstance)] = true
+							}
+							for _, r := range o.refs {
+								h, err := stored(0, r)
+								if err != nil {
+									return err
 								}
-								// Is the same blob present under another
-								// instance name? Then a cache keyed without
-								// the instance name would have said present.
-								for _, other := range insts {
-									if oh, _ := holds("x", other, ob); oh && other != o.inst[x] {
-										cacheOtherInstanceAbsent++
-										break
+								reportedPresent := !got[dig("c", r).GetKey(digest.KeyWithInstance)]
+								if reportedPresent && !h {
+									return fmt.Errorf("C17 (configured, %s, cache size %d): an existence cache never reports an object present unless the back end reported it present, but object %d is reported present under %q, where the back end has never held it (objects never disappear in this test)", desc, cacheSize, r.o, r.inst)
+								}
+								if reportedPresent {
+									cachePresent++
+								} else {
+									if h {
+										hiddenAsMissing++
+									}
+									// Is the same blob present under another
+									// instance name? Then a cache keyed without
+									// the instance name would have said present.
+									for _, other := range allInsts {
+										if oh, _ := stored(0, cfgRef{r.o, other}); oh && other != r.inst {
+											cacheOtherInstanceAbsent++
+											break
+										}
 									}
 								}
 							}
 						}
+						continue
 					}
-					continue
-				}
-				switch o.kind {
-				case "put":
-					ob := o.objs[0]
-					bx, err := holds("x", "", ob)
-					if err != nil {
-						return err
-					}
-					by, err := holds("y", "", ob)
-					if err != nil {
-						return err
-					}
-					d := dig("c", o.inst[0], ob)
-					if err := ba.Put(ctx, d, buffer.NewCASBufferFromByteSlice(d, payload(ob), buffer.UserProvided)); err != nil {
-						return fmt.Errorf("C17 (configured, %s): Put of object %d failed: %v", desc, ob, err)
-					}
-					ax, _ := holds("x", "", ob)
-					ay, _ := holds("y", "", ob)
-					if kind == "read_caching" {
-						if !ax {
-							return fmt.Errorf("C17 (configured, %s): uploads go to the slow back end, but after an acknowledged upload of object %d the slow back end does not hold it", desc, ob)
+					switch o.kind {
+					case "place":
+						r := o.refs[0]
+						d := dig(leafPrefix[o.leaf], r)
+						if err := ba.Put(ctx, d, buffer.NewCASBufferFromByteSlice(d, objs[r.o].data, buffer.UserProvided)); err != nil {
+							return fmt.Errorf("harness/C17: direct Put into leaf %s failed: %v", leafPrefix[o.leaf], err)
 						}
-						if ay && !by {
-							return fmt.Errorf("C17 (configured, %s): uploads go only to the slow back end, but the upload of object %d also stored it in the fast back end", desc, ob)
+						placedLater++
+						if err := note(r); err != nil {
+							return err
 						}
-					} else {
-						if !ay {
-							return fmt.Errorf("C17 (configured, %s): uploads go to the primary back end, but after an acknowledged upload of object %d the primary back end does not hold it", desc, ob)
+					case "put":
+						r := o.refs[0]
+						obj := objs[r.o]
+						// uploads go to: slow (read_caching), primary (read_fallback)
+						target := 0
+						if kind == "read_fallback" {
+							target = 1
 						}
-						if ax && !bx {
-							return fmt.Errorf("C17 (configured, %s): uploads go only to the primary back end, but the upload of object %d also stored it in the secondary back end", desc, ob)
-						}
-					}
-				case "get":
-					ob := o.objs[0]
-					bx, err := holds("x", "", ob)
-					if err != nil {
-						return err
-					}
-					by, err := holds("y", "", ob)
-					if err != nil {
-						return err
-					}
-					data, gerr := ba.Get(ctx, dig("c", o.inst[0], ob)).ToByteSlice(1 << 16)
-					if gerr == nil && !bx && !by {
-						return fmt.Errorf("C17 (configured, %s): Get of object %d returned %q although neither back end holds it", desc, ob, data)
-					}
-					if gerr != nil && (bx || by) {
-						return fmt.Errorf("C17 (configured, %s): the composite returns an object if the %s or the %s back end holds it, but Get of object %d (%s holds: %v, %s holds: %v) failed: %v", desc, yName, xName, ob, xName, bx, yName, by, gerr)
-					}
-					if gerr == nil && string(data) != string(payload(ob)) {
-						return fmt.Errorf("C17 (configured, %s): Get of object %d returned %q", desc, ob, data)
-					}
-					ax, _ := holds("x", "", ob)
-					ay, _ := holds("y", "", ob)
-					if (bx && !ax) || (by && !ay) || (!bx && !by && (ax || ay)) {
-						return fmt.Errorf("C17 (configured, %s): Get of object %d changed the back ends unexpectedly: %s %v->%v, %s %v->%v", desc, ob, xName, bx, ax, yName, by, ay)
-					}
-					if !bx && !by {
-						absentReads++
-					}
-					if bx && !by {
-						readThrough++
-						if ay {
-							readThroughCopied++
-						}
-						if !repl.noop && !ay {
-							return fmt.Errorf("C17 (configured, %s): after a successful read-through with a copying replicator the object is present in the %s back end, but object %d (held only by the %s back end, read successfully) is still absent from it", desc, yName, ob, xName)
-						}
-					}
-					if !bx && by && ax {
-						recConfigured.Count("read_copied_object_towards_source", 1)
-					}
-				case "find":
-					if kind == "read_caching" {
-						continue // the property states nothing about it
-					}
-					sb := digest.NewSetBuilder(0)
-					want := map[string]bool{}
-					both := false
-					for x, ob := range o.objs {
-						d := dig("c", o.inst[x], ob)
-						sb.Add(d)
-						bx, err := holds("x", "", ob)
+						otherBefore, err := stored(1-target, r)
 						if err != nil {
 							return err
 						}
-						by, err := holds("y", "", ob)
+						d := dig("c", r)
+						var perr error
+						if run(func(ctx context.Context) {
+							perr = ba.Put(ctx, d, buffer.NewCASBufferFromByteSlice(d, obj.data, buffer.UserProvided))
+						}) {
+							return blockedErr(fmt.Sprintf("the upload of %s", r), perr)
+						}
+						cannot := fails(target, r.inst) || !fits(target, r.o)
+						if cannot {
+							putCannotStore++
+						}
+						if perr != nil {
+							failedOps++
+							if !cannot {
+								return fmt.Errorf("C17 (configured, %s): Put of %s failed although the %s back end, which uploads go to, is healthy and can store it: %v", desc, r, names[target], perr)
+							}
+						} else {
+							h, err := holds(target, r)
+							if err != nil {
+								return err
+							}
+							if !h {
+								return fmt.Errorf("C17 (configured, %s): uploads go to the %s back end, but after an acknowledged upload of %s the %s back end does not hold it (it is able to store it: %v)", desc, names[target], r, names[target], !cannot)
+							}
+						}
+						otherAfter, err := stored(1-target, r)
 						if err != nil {
 							return err
 						}
-						want[d.GetKey(digest.KeyWithInstance)] = !bx && !by
-						both = both || bx != by
-					}
-					if both {
-						findBothSides++
-					}
-					missing, err := ba.FindMissing(ctx, sb.Build())
-					if err != nil {
-						return fmt.Errorf("C17 (configured, %s): FindMissing over %v failed although both back ends are healthy: %v", desc, sb.Build().Items(), err)
-					}
-					got := map[string]bool{}
-					for _, d := range missing.Items() {
-						got[d.GetKey(digest.KeyWithInstance)] = true
-					}
-					for k, w := range want {
-						if got[k] != w {
-							return fmt.Errorf("C17 (configured, %s): FindMissing through a fallback reports exactly the objects missing from both back ends: %s missing from both: %v, reported missing: %v (request %v, answer %v)", desc, k, w, got[k], sb.Build().Items(), missing.Items())
+						if otherAfter && !otherBefore {
+							return fmt.Errorf("C17 (configured, %s): uploads go only to the %s back end, but the upload of %s also stored it in the %s back end", desc, names[target], r, names[1-target])
 						}
-						delete(got, k)
+						if err := note(r); err != nil {
+							return err
+						}
+					case "get":
+						r := o.refs[0]
+						obj := objs[r.o]
+						rd := o.read
+						bx, err := holds(0, r)
+						if err != nil {
+							return err
+						}
+						by, err := holds(1, r)
+						if err != nil {
+							return err
+						}
+						existed, err := heldAnywhere(r.o)
+						if err != nil {
+							return err
+						}
+						// was the blob in the sink leaf under another
+						// instance name already?
+						sinkHadOther := ""
+						for _, inst := range allInsts {
+							if s, _ := stored(1, cfgRef{r.o, inst}); s && inst != r.inst {
+								sinkHadOther = inst
+								break
+							}
+						}
+						anyFailing := fails(0, r.inst) || fails(1, r.inst)
+						ra := readArgs{msg: obj.msg, full: obj.data, off: rd.off, ln: rd.ln}
+						methodsUsed[methodNames[rd.method]] = true
+						what := fmt.Sprintf("Get of %s consumed with %s (%s holds it: %v, %s holds it: %v)", r, methodNames[rd.method], names[0], bx, names[1], by)
+						var data []byte
+						var gerr error
+						if run(func(ctx context.Context) {
+							data, gerr = consume(ba.Get(ctx, dig("c", r)), rd.method, rd.chunk, ra)
+						}) {
+							return blockedErr(what, gerr)
+						}
+						if gerr == nil {
+							if !bx && !by {
+								return fmt.Errorf("C17 (configured, %s): %s returned %.60q although neither back end holds it", desc, what, data)
+							}
+							if want := ra.wanted(rd.method); string(data) != string(want) {
+								return fmt.Errorf("C17 (configured, %s): %s returned %d bytes %.60q, want %d bytes %.60q", desc, what, len(data), data, len(want), want)
+							}
+						} else {
+							failedOps++
+							switch {
+							case anyFailing:
+								// a back end failed during this read: any error
+								readFailingBackEnd++
+							case !bx && !by:
+								absentReads++
+							case bx && !by && copying && !fits(1, r.o):
+								// the copy cannot be stored: a back-end
+								// failure, any error
+								copyTooBig++
+							default:
+								return fmt.Errorf("C17 (configured, %s): the composite returns an object if the %s or the %s back end holds it, but %s failed: %v", desc, names[1], names[0], what, gerr)
+							}
+						}
+						ay, err := holds(1, r)
+						if err != nil {
+							return err
+						}
+						ax, err := holds(0, r)
+						if err != nil {
+							return err
+						}
+						if (bx && !ax) || (by && !ay) {
+							return fmt.Errorf("C17 (configured, %s): %s removed the object from a back end: %s %v->%v, %s %v->%v", desc, what, names[0], bx, ax, names[1], by, ay)
+						}
+						if !existed && (ax || ay) {
+							return fmt.Errorf("C17 (configured, %s): %s left a blob that no back end held under any instance name in a back end (%s: %v, %s: %v)", desc, what, names[0], ax, names[1], ay)
+						}
+						if gerr == nil && bx && !by && !anyFailing {
+							readThrough++
+							if ay {
+								readThroughCopied++
+								if failedOps > 0 {
+									copyAfterFailure++
+								}
+								if sinkHadOther != "" {
+									if strings.HasPrefix(sinkHadOther, r.inst) || strings.HasPrefix(r.inst, sinkHadOther) {
+										copiedAlreadyTherePrefix++
+									} else {
+										copiedAlreadyThereUnrelated++
+									}
+								}
+							}
+							// (not demanded of a partial ReadAt, see verif.json)
+							if copying && !ay && rd.method != methodReadAtPartial {
+								return fmt.Errorf("C17 (configured, %s): after a successful read-through with a copying replicator the object is present in the %s back end, but after %s it is still absent from it under that instance name (the %s back end is able to store it: %v; the same blob was there under instance name %q before: %v)", desc, names[1], what, names[1], fits(1, r.o), sinkHadOther, sinkHadOther != "")
+							}
+						}
+						if !bx && by && ax {
+							recConfigured.Count("read_copied_object_towards_source", 1)
+						}
+						if err := note(r); err != nil {
+							return err
+						}
+					case "find":
+						if kind == "read_caching" {
+							continue // the property states nothing about it
+						}
+						sb := digest.NewSetBuilder(0)
+						type state struct{ bx, by, failing bool }
+						before := map[cfgRef]state{}
+						anyFailing, cannotCopy, both := false, false, false
+						for _, r := range o.refs {
+							sb.Add(dig("c", r))
+							bx, err := holds(0, r)
+							if err != nil {
+								return err
+							}
+							by, err := holds(1, r)
+							if err != nil {
+								return err
+							}
+							f := fails(0, r.inst) || fails(1, r.inst)
+							before[r] = state{bx, by, f}
+							anyFailing = anyFailing || f
+							// (today a fallback FindMissing also copies
+							// secondary-only objects into the primary)
+							cannotCopy = cannotCopy || (bx && !by && copying && !fits(1, r.o))
+							both = both || bx != by
+						}
+						if both {
+							findBothSides++
+						}
+						var missing digest.Set
+						var ferr error
+						if run(func(ctx context.Context) { missing, ferr = ba.FindMissing(ctx, sb.Build()) }) {
+							return blockedErr(fmt.Sprintf("FindMissing over %v", o.refs), ferr)
+						}
+						if ferr != nil {
+							failedOps++
+							if anyFailing {
+								findFailing++
+							}
+							if !anyFailing && !cannotCopy {
+								return fmt.Errorf("C17 (configured, %s): FindMissing over %v failed although both back ends are healthy: %v", desc, o.refs, ferr)
+							}
+						} else {
+							got := map[string]bool{}
+							for _, d := range missing.Items() {
+								got[d.GetKey(digest.KeyWithInstance)] = true
+							}
+							for r, s := range before {
+								k := dig("c", r).GetKey(digest.KeyWithInstance)
+								switch {
+								case !s.failing:
+									if got[k] != (!s.bx && !s.by) {
+										return fmt.Errorf("C17 (configured, %s): FindMissing through a fallback reports exactly the objects missing from both back ends: %s missing from both: %v, reported missing: %v (request %v, answer %v)", desc, r, !s.bx && !s.by, got[k], o.refs, missing.Items())
+									}
+								case s.bx || s.by:
+									if got[k] {
+										return fmt.Errorf("C17 (configured, %s): FindMissing through a fallback reported %s missing although the healthy back end holds it (request %v, answer %v)", desc, r, o.refs, missing.Items())
+									}
+								}
+								delete(got, k)
+							}
+							if len(got) != 0 {
+								return fmt.Errorf("C17 (configured, %s): FindMissing reported digests that were not asked about: %v", desc, got)
+							}
+						}
+						for _, r := range o.refs {
+							if err := note(r); err != nil {
+								return err
+							}
+						}
 					}
-					if len(got) != 0 {
-						return fmt.Errorf("C17 (configured, %s): FindMissing reported digests that were not asked about: %v", desc, got)
+					if err := checkNothingLost(o.String()); err != nil {
+						return err
 					}
 				}
-			}
-			return nil
+				return nil
+			})
 		})
-		if err != nil {
-			t.Fatalf("%v", err)
+		if verdict != nil {
+			t.Fatalf("%v", verdict)
 		}
 		c.Class("composite_" + kind)
-		c.ClassIf(repl.noop && kind != "existence_caching", "noop_replicator")
-		c.ClassIf(len(repl.wrappers) > 0 && kind != "existence_caching", "wrapped_replicator")
+		if !existence {
+			c.ClassIf(repl.noop, "noop_replicator")
+			c.ClassIf(len(repl.wrappers) > 0, "wrapped_replicator")
+			c.ClassIf(len(repl.wrappers) > 1, "nested_replicator")
+			for _, k := range []string{"deduplicating", "concurrency_limiting", "queued"} {
+				c.ClassIf(repl.has(k), "replicator_"+k)
+			}
+			c.ClassIf(leaves[1].hierarchical, "hierarchical_sink")
+			c.ClassIf(leaves[0].hierarchical, "hierarchical_source")
+			c.ClassIf(failCode[0] != codes.OK || failCode[1] != codes.OK, "back_end_failing_for_an_instance_name")
+			c.ClassIf(small >= 0, "leaf_too_small_for_the_big_object")
+		}
 		c.ClassIf(readThrough > 0, "read_through")
 		c.ClassIf(readThroughCopied > 0, "read_through_copied")
+		c.ClassIf(copiedAlreadyThereUnrelated > 0, "read_through_copied_blob_already_in_sink_under_unrelated_instance_name")
+		c.ClassIf(copiedAlreadyTherePrefix > 0, "read_through_copied_blob_already_in_sink_under_prefix_related_instance_name")
 		c.ClassIf(findBothSides > 0, "fallback_findmissing_with_one_sided_object")
 		c.ClassIf(cachePresent > 0, "existence_cache_reports_present")
 		c.ClassIf(cacheOtherInstanceAbsent > 0, "existence_cache_absent_here_present_under_other_instance_name")
 		c.ClassIf(hiddenAsMissing > 0, "existence_cache_reports_missing_although_held")
 		c.ClassIf(absentReads > 0, "read_of_absent_object")
+		c.ClassIf(readFailingBackEnd > 0, "read_failed_with_failing_back_end")
+		c.ClassIf(copyTooBig > 0, "read_failed_because_copy_too_big_for_sink")
+		c.ClassIf(putCannotStore > 0, "upload_the_target_cannot_store")
+		c.ClassIf(findFailing > 0, "fallback_findmissing_failed_with_failing_back_end")
+		c.ClassIf(placedLater > 0, "blob_placed_in_a_back_end_between_operations")
+		c.ClassIf(failedOps > 0 && opsAfterFailure > 0, "operations_after_a_failed_one")
+		c.ClassIf(copyAfterFailure > 0, "read_through_copied_after_a_failed_operation")
+		for m := range methodsUsed {
+			c.Class("consume_" + m)
+		}
 		if readThroughCopied > 0 || findBothSides > 0 || cacheOtherInstanceAbsent > 0 {
 			c.NonTrivial()
 		}
 		c.Sample(func() string {
-			return fmt.Sprintf("%s repl=%s cache=%d seeds=%v ops=%d readThrough=%d copied=%d", kind, repl, cacheSize, seeds, nops, readThrough, readThroughCopied)
+			parts := []string{}
+			for _, o := range ops {
+				parts = append(parts, o.String())
+			}
+			return fmt.Sprintf("%s seeds=%v ops=%v readThrough=%d copied=%d", desc, seeds, parts, readThrough, readThroughCopied)
 		})
 		c.End()
 	})
